@@ -1,11 +1,61 @@
 import EpdVerif.Drivers.Dsl
 import EpdVerif.Gen.Epd5in65f
-/-! model of `src/epd5in65f/mod.rs` (STUB: programs not yet transcribed) -/
+/-! model of `src/epd5in65f/mod.rs` -/
 namespace EpdVerif.Drivers.Epd5in65f
 open EpdVerif
 open EpdVerif.Gen.Epd5in65f
 
-def prog (_f : Feat) (_d : DState) : Op → Option (List Act)
+/-- `self.wait_until_idle` = `interface.wait_until_idle(delay, true)` -/
+def W : Act := .wait true
+/-- `self.wait_busy_low` = `interface.wait_until_idle(delay, false)` -/
+def WLow : Act := .wait false
+
+/-- `OctColor::colors_byte(a, b)` = `a.get_nibble() << 4 | b.get_nibble()` (u8) -/
+def colorsByte (a b : Nat) : UInt8 := u8 ((a <<< 4) ||| b)
+
+def sendResolution : List Act :=
+  [.cmd Command.TconResolution, .data [shr8 WIDTH 8], .data [u8 WIDTH],
+   .data [shr8 HEIGHT 8], .data [u8 HEIGHT]]
+
+def updateVcom (d : DState) : List Act :=
+  cmdData Command.VcomAndDataIntervalSetting [(0x17 : UInt8) ||| u8 ((d.bg &&& 0b111) <<< 5)]
+
+def init (d : DState) : List Act :=
+  [.reset 10000 2000] ++
+  cmdData Command.PanelSetting [0xEF, 0x08] ++
+  cmdData Command.PowerSetting [0x37, 0x00, 0x23, 0x23] ++
+  cmdData Command.PowerOffSequenceSetting [0x00] ++
+  cmdData Command.BoosterSoftStart [0xC7, 0xC7, 0x1D] ++
+  cmdData Command.PllControl [0x3C] ++
+  cmdData Command.TemperatureSensor [0x00] ++
+  updateVcom d ++
+  cmdData Command.TconSetting [0x22] ++
+  sendResolution ++
+  cmdData Command.FlashMode [0xAA] ++
+  [.delayUs 100000] ++
+  updateVcom d
+
+def updateFrame (d : DState) (b : Bytes) : List Act :=
+  [W] ++ updateVcom d ++ sendResolution ++ cmdData Command.DataStartTransmission1 b
+
+def displayFrame : List Act :=
+  [W, .cmd Command.PowerOn, W, .cmd Command.DisplayRefresh, W, .cmd Command.PowerOff, WLow]
+
+def prog (_f : Feat) (d : DState) : Op → Option (List Act)
+  | .new => some (init d)
+  | .wake => some (init d)
+  | .sleep => some (cmdData Command.DeepSleep [0xA5])
+  | .upd b => some (updateFrame d b)
+  | .part _ _ _ _ _ => some [.panic]
+  | .disp => some displayFrame
+  | .updisp b => some (updateFrame d b ++ displayFrame)
+  | .clear =>
+    some ([W] ++ updateVcom d ++ sendResolution ++
+      [.cmd Command.DataStartTransmission1, .rep (colorsByte d.bg d.bg) (WIDTH * HEIGHT / 2)] ++
+      displayFrame)
+  | .bg c => some [.upd (fun d => { d with bg := c })]
+  | .lut _ => some [.panic]
+  | .wait => some [W]
   | _ => none
 
 def panel (f : Feat) : Panel :=
